@@ -176,7 +176,17 @@ def harness_dir():
     return d, b
 
 
+_BUILT = {}
+
+
 def build_harness(pkg):
+    if pkg in _BUILT:
+        return _BUILT[pkg]
+    _BUILT[pkg] = _build_harness(pkg)
+    return _BUILT[pkg]
+
+
+def _build_harness(pkg):
     hd, bd = harness_dir()
     e = goenv(); e["VERIF_HARNESS_DIR"] = hd
     r = run([os.path.join(V, "tools", "mkgomod.sh")], env=e)
